@@ -1,6 +1,6 @@
 (* Props/C10.v -- property C10: receive windows follow the regional parameters in force when the uplink was sent. *)
 From Coq Require Import NArith ZArith List Bool.
-From LoraV Require Import Base.Bytes Gen.RegionTables Model.Region Model.Mac Spec.RP002 Proofs.WindowProofs Model.AsyncDev Proofs.AsyncWindows.
+From LoraV Require Import Base.Bytes Gen.RegionTables Model.Region Model.Mac Spec.RP002 Proofs.WindowProofs Model.AsyncDev Proofs.AsyncWindows Model.NbDev Proofs.NbWindows.
 Import ListNotations.
 Local Open Scope N_scope.
 
@@ -84,4 +84,25 @@ Section C10.
        ASetupRx rfc None; ARxContPending; ATimerAt (cf_rx1_delay (m_cfg m) + 100 - lead); ASetupRx (to_rx1 o) (Some lead); ARxSingle; ASetupRx rfc None;
        ASetupRx rfc None; ARxContPending; ATimerAt (cf_rx1_delay (m_cfg m) + 1000 + 100 - lead); ASetupRx (to_rx2 o) (Some lead); ARxSingle; ASetupRx rfc None].
   Proof. exact (async_class_c_window_schedule enc mac_fn). Qed.
+
+  (* nb_device (nb_device/state.rs): the receive procedure after ANY successful uplink when the radio accepts every request, reports the
+     end of the transmission at time ms and the application delivers the timeouts it is asked for: RX1 requested at
+     (RECEIVE_DELAY1 + ms + offset) mod 2^32 with the window computed when the uplink was built, closed 100 ms later, RX2 requested
+     one second after RX1 with the RX2 window computed then, closed 100 ms later, whereupon the uplink is concluded; the MAC (and so
+     the negotiated parameters) is not touched in between. *)
+  Theorem C10_nb_class_a_window_schedule : forall m0 e data fport confirmed draws o ms a2 a3 a4 a5,
+    nquiet e ->
+    send enc mac_fn m0 data fport confirmed draws = Val (SendOk o) ->
+    let m := to_mac o in
+    let t1 := t_rx1 m ms in
+    let '(s1, m1, e1, r1) := handle_event enc mac_fn NIdle m0 e (NSend data fport confirmed draws) (RaTxDone ms) in
+    let '(s2, m2, e2, r2) := handle_event enc mac_fn s1 m1 e1 NTimeout a2 in
+    let '(s3, m3, e3, r3) := handle_event enc mac_fn s2 m2 e2 NTimeout a3 in
+    let '(s4, m4, e4, r4) := handle_event enc mac_fn s3 m3 e3 NTimeout a4 in
+    let '(s5, m5, e5, r5) := handle_event enc mac_fn s4 m4 e4 NTimeout a5 in
+    [r1; r2; r3; r4] = [NrTimeoutRequest t1; NrTimeoutRequest (t1 + 100); NrTimeoutRequest (t1 + 1000); NrTimeoutRequest (t1 + 1000 + 100)] /\
+    rev (n_trace e5) = rev (n_trace e) ++ [NcTx (to_tx o) (to_frame o); NcRxRequest (to_rx1 o); NcCancelRx; NcRxRequest (to_rx2 o); NcCancelRx] /\
+    s5 = NIdle /\ (m5, r5) = (let '(m', r) := mac_rx2_complete m in (m', resp_of_mac r)) /\
+    m1 = m /\ m4 = m.
+  Proof. exact (nb_class_a_window_schedule enc mac_fn). Qed.
 End C10.
